@@ -67,6 +67,10 @@ type provProfile struct {
 	noLimits    bool
 	saltByTask  map[int]*subRand
 	dsTemplates []*appsv1.DaemonSet
+	disrupt     bool
+	d           *disruptState
+	rsQueue     []string
+	tailOK      bool
 }
 
 func init() { Profiles["prov"] = func() Profile { return &provProfile{} } }
@@ -88,6 +92,9 @@ func (p *provProfile) build() {
 	p.e.AddLifecycle()
 	p.e.AddNodeClaimDisruption()
 	p.e.AddProvisioning()
+	if p.disrupt {
+		p.buildDisrupt()
+	}
 	p.s.Mgr.Resync()
 }
 
@@ -97,6 +104,7 @@ func (p *provProfile) Run(s *Sim) {
 	p.e = NewEnv(s)
 	p.e.Opts = DefaultOptions()
 	s.DrawKnobs()
+	s.Knobs.PCrash /= 25 // long runs: keep restarts to a handful per run
 	p.passes = map[int]*passInfo{}
 	p.ackedNC = map[string]int{}
 	p.ncPods = map[string][]types.UID{}
@@ -138,14 +146,26 @@ func (p *provProfile) Run(s *Sim) {
 	s.store.OnWrite = append(s.store.OnWrite, p.onWrite)
 	s.OnTaskDone(p.onTaskDone)
 	s.AddObserver(p.observe)
+	if p.disrupt {
+		p.setupDisrupt()
+		s.store.OnWrite = append(s.store.OnWrite, p.rsOnWrite, p.disruptOnWrite)
+		s.OnTaskDone(p.disruptTaskDone)
+		s.AddObserver(p.disruptObserve)
+	}
 
 	s.Boot(p.e.BaseCtx(), p.build)
+	if p.disrupt {
+		s.Mgr.OnDeliver = append(s.Mgr.OnDeliver, p.disruptOnDeliver)
+	}
 	p.e.DefaultNodeClass()
 	must(s.store.Create(&corev1.Namespace{ObjectMeta: metav1.ObjectMeta{Name: "default"}}, nil))
-	p.noLimits = ch.Pick("prov.nolimits", 2) == 0
+	p.noLimits = ch.Pick("prov.nolimits", 2) == 0 || p.disrupt
 	nPools := 1 + ch.Pick("prov.npools", 4)
 	for i := 0; i < nPools; i++ {
 		np := p.genNodePool(fmt.Sprintf("pool-%d", i))
+		if p.disrupt {
+			p.genDisruptionSettings(np)
+		}
 		must(s.store.Create(np, nil))
 		p.pools = append(p.pools, np.Name)
 	}
@@ -155,22 +175,51 @@ func (p *provProfile) Run(s *Sim) {
 	}
 	p.ks = NewKubeScheduler(p.e)
 	p.ks.PBind = []float64{0.7, 0.3, 1.0}[ch.Pick("prov.pbind", 3)]
+	p.ks.GiveUp = time.Duration(3+ch.Pick("prov.giveup", 4)) * time.Minute
+	p.ks.OnGiveUp = func(pod *corev1.Pod) {
+		if p.d == nil {
+			return
+		}
+		for _, o := range pod.OwnerReferences {
+			if o.Kind == "ReplicaSet" && p.d.rsDesired[o.Name] > 0 {
+				p.d.rsDesired[o.Name]--
+			}
+		}
+	}
 	p.ks.Start()
 	NewDaemonSetController(p.e)
 
 	horizon := time.Duration(3+ch.Pick("prov.horizon", 10)) * time.Minute
 	nOps := 3 + ch.Pick("prov.nops", 10)
+	tail := 8 * time.Minute
+	maxSteps := 12000
+	if p.disrupt {
+		horizon = time.Duration(8+ch.Pick("dis.horizon", 14)) * time.Minute
+		nOps = 6 + ch.Pick("dis.nops", 14)
+		tail = 14 * time.Minute
+		maxSteps = 30000
+		if ch.Pick("dis.longtail", 8) == 0 {
+			tail = 80 * time.Minute
+			maxSteps = 60000
+		}
+		// an initial load so that there is something to disrupt
+		for i := 0; i < 2+ch.Pick("dis.initial", 3); i++ {
+			s.AddTimer(actorUser, time.Duration(5+i)*time.Second, fmt.Sprintf("initial deployment %d", i), false, p.deploy)
+		}
+	}
 	for i := 0; i < nOps; i++ {
 		at := time.Duration(ch.Pick("prov.at", int(horizon/time.Second))) * time.Second
 		if i == 0 {
 			at = 5 * time.Second
 		}
+		if p.disrupt {
+			at += 2 * time.Minute
+		}
 		s.AddTimer(actorUser, at, fmt.Sprintf("user op %d", i), false, p.op)
 	}
-	faultStop := horizon + time.Minute
+	faultStop := horizon + 3*time.Minute
 	s.AddTimer(actorUser, faultStop, "faults stop", false, func() { s.FaultsOn = false; s.Logf("env  faults stop") })
-	end := faultStop + 8*time.Minute
-	maxSteps := 12000
+	end := faultStop + tail
 	if !s.Cfg.NoFaults && s.Knobs.PCrash > 0 {
 		s.AddActions(crashSource{s})
 	}
@@ -181,6 +230,8 @@ func (p *provProfile) Run(s *Sim) {
 	}
 	if s.step >= maxSteps {
 		s.Stat("prov.stepcap")
+	} else if s.Elapsed() >= end {
+		p.tailOK = true
 	}
 	p.finalChecks()
 	s.Sample = p.ops
@@ -289,6 +340,12 @@ func (p *provProfile) genNodePool(name string) *v1.NodePool {
 		it := p.e.CP.Catalog[ch.Pick("np.notinit", len(p.e.CP.Catalog))]
 		reqs = append(reqs, v1.NodeSelectorRequirementWithMinValues{Key: corev1.LabelInstanceTypeStable, Operator: corev1.NodeSelectorOpNotIn, Values: []string{it.Name}})
 	}
+	friendly := p.disrupt && ch.Pick("np.friendly", 4) != 0
+	if friendly {
+		// most disruption runs use plain pools so that nodes come up and can be consolidated
+		np.Spec.Template.Spec.Requirements = reqs
+		return np
+	}
 	switch ch.Pick("np.custom", 4) {
 	case 0:
 		reqs = append(reqs, v1.NodeSelectorRequirementWithMinValues{Key: customKey, Operator: corev1.NodeSelectorOpIn, Values: []string{"a", "b"}})
@@ -358,7 +415,16 @@ func (p *provProfile) genPodSpec() (corev1.PodSpec, map[string]string) {
 	if ch.Pick("pod.init", 6) == 0 {
 		spec.InitContainers = []corev1.Container{{Name: "i", Image: "x", Resources: corev1.ResourceRequirements{Requests: corev1.ResourceList{corev1.ResourceCPU: resource.MustParse([]string{"2", "6"}[ch.Pick("pod.initcpu", 2)])}}}}
 	}
-	switch ch.Pick("pod.sel", 8) {
+	sel := ch.Pick("pod.sel", 8)
+	if p.disrupt && sel >= 2 && sel <= 4 && ch.Pick("pod.friendly", 4) != 0 {
+		sel = 7
+	}
+	if p.disrupt {
+		c.Resources.Requests[corev1.ResourceCPU] = resource.MustParse([]string{"100m", "500m", "1", "2", "1500m", "3"}[ch.Pick("pod.cpu2", 6)])
+		c.Resources.Requests[corev1.ResourceMemory] = resource.MustParse([]string{"128Mi", "1Gi", "2Gi", "512Mi"}[ch.Pick("pod.mem2", 4)])
+		spec.Containers = []corev1.Container{c}
+	}
+	switch sel {
 	case 0:
 		spec.NodeSelector = map[string]string{corev1.LabelTopologyZone: p.zones[ch.Pick("pod.zone", len(p.zones))]}
 	case 1:
@@ -397,24 +463,42 @@ func (p *provProfile) genPodSpec() (corev1.PodSpec, map[string]string) {
 	return spec, labels
 }
 
+func (p *provProfile) deploy() {
+	ch := p.ch
+	st := p.s.store
+	p.nDep++
+	spec, labels := p.genPodSpec()
+	n := 1 + ch.Pick("prov.wave", 8)
+	rs := fmt.Sprintf("rs-%d", p.nDep)
+	for i := 0; i < n; i++ {
+		p.nPod++
+		pod := &corev1.Pod{ObjectMeta: metav1.ObjectMeta{Name: fmt.Sprintf("pod-%d", p.nPod), Namespace: "default", Labels: labels,
+			OwnerReferences: []metav1.OwnerReference{{APIVersion: "apps/v1", Kind: "ReplicaSet", Name: rs, UID: types.UID(rs), Controller: ptr.To(true)}}},
+			Spec: *spec.DeepCopy()}
+		pod.Status.Phase = corev1.PodPending
+		if p.d != nil && i == 0 {
+			p.d.rsSpec[rs] = pod.DeepCopy()
+		}
+		must(st.Create(pod, nil))
+	}
+	if p.d != nil {
+		p.d.rsDesired[rs] = n
+	}
+	p.note("deployment d%d: %d pods cpu=%s sel=%v", p.nDep, n, spec.Containers[0].Resources.Requests.Cpu(), spec.NodeSelector)
+}
+
 func (p *provProfile) op() {
 	ch := p.ch
 	st := p.s.store
+	if p.disrupt && ch.Pick("dis.which", 3) != 0 {
+		if p.disruptOp() {
+			return
+		}
+	}
 	switch ch.Pick("prov.op", 12) - 1 {
 	case -1:
 	case 0, 1, 2, 3, 4: // a deployment scales up: a wave of identical pods
-		p.nDep++
-		spec, labels := p.genPodSpec()
-		n := 1 + ch.Pick("prov.wave", 8)
-		for i := 0; i < n; i++ {
-			p.nPod++
-			pod := &corev1.Pod{ObjectMeta: metav1.ObjectMeta{Name: fmt.Sprintf("pod-%d", p.nPod), Namespace: "default", Labels: labels,
-				OwnerReferences: []metav1.OwnerReference{{APIVersion: "apps/v1", Kind: "ReplicaSet", Name: fmt.Sprintf("rs-%d", p.nDep), UID: types.UID(fmt.Sprintf("rs-%d", p.nDep)), Controller: ptr.To(true)}}},
-				Spec: *spec.DeepCopy()}
-			pod.Status.Phase = corev1.PodPending
-			must(st.Create(pod, nil))
-		}
-		p.note("deployment d%d: %d pods cpu=%s sel=%v", p.nDep, n, spec.Containers[0].Resources.Requests.Cpu(), spec.NodeSelector)
+		p.deploy()
 	case 5: // scale down: delete some pods
 		l := st.List(gvkPod)
 		for i := 0; i < 1+ch.Pick("prov.del", 4) && len(l) > 0; i++ {
@@ -575,7 +659,15 @@ var nominatedTarget = func(msg string) (kind, name string) {
 }
 
 func (p *provProfile) onEvent(re RecEvent) {
-	if re.Ev.Reason != events.Nominated || re.Task == nil {
+	if re.Ev.Reason != events.Nominated {
+		return
+	}
+	if p.d != nil {
+		if kind, name := nominatedTarget(re.Ev.Message); kind == "node" {
+			p.d.nomEvents[name] = p.s.step
+		}
+	}
+	if re.Task == nil {
 		return
 	}
 	pi := p.passes[re.Task.ID]
@@ -1119,12 +1211,31 @@ func (p *provProfile) checkLimits(when string) {
 		}
 		for r, lim := range np.Spec.Limits {
 			if got := total[r]; got.Cmp(lim) > 0 {
+				if p.d != nil && p.poolHadDisruptionCandidate(np.Name) {
+					// capacity launched for the pods of a node that was marked for disruption, and the command was then rolled back
+					s.Violate("C03", "limit-exceeded-with-disruption-candidate", "%s: NodePool %s has %d non-deleting nodes with total %s=%s, above its limit %s; one of them is or was a candidate of a disruption command (marked nodes do not count against the limit, a rolled-back command returns them)", when, np.Name, n, r, got.String(), lim.String())
+					return
+				}
 				s.Violate("C03", "limit-exceeded", "%s: NodePool %s has %d non-deleting nodes with total %s=%s, above its limit %s", when, np.Name, n, r, got.String(), lim.String())
 				return
 			}
 		}
 		s.Probe("c03-limit-checked")
 	}
+}
+
+func (p *provProfile) poolHadDisruptionCandidate(pool string) bool {
+	for _, ci := range p.d.cmdList {
+		for _, c := range ci.cands {
+			if c.pool != pool {
+				continue
+			}
+			if o := p.s.store.Get(gvkNodeClaim, types.NamespacedName{Name: c.nodeClaim}); o != nil && o.GetDeletionTimestamp() == nil {
+				return true
+			}
+		}
+	}
+	return false
 }
 
 func (p *provProfile) checkDrifted(nc *v1.NodeClaim, by *Task) {
@@ -1146,4 +1257,7 @@ func (p *provProfile) checkDrifted(nc *v1.NodeClaim, by *Task) {
 
 func (p *provProfile) finalChecks() {
 	p.checkLimits("end of run")
+	if p.disrupt {
+		p.disruptFinal()
+	}
 }
